@@ -37,7 +37,9 @@ def stepping_ok(t0, t1, mx, steps):
     for s in steps:
         if (d > 0 and not s > 0) or (d < 0 and not s < 0):
             return False, f"step {s!r} does not point from {t0!r} to {t1!r}"
-        if abs(s) > mx * (1 + 1e-12):
+        # "longer" is judged up to the spacing of the representable times involved: at t ~ 5000 the times themselves are only
+        # known to 9e-13 s, and a remainder computed from them can exceed max_dt by a fraction of that although the exact one does not
+        if abs(s) > mx * (1 + 1e-12) + 2 * max(math.ulp(t0), math.ulp(t1)):
             return False, f"step {s!r} longer than the configured maximum {mx!r}"
     if not abs(math.fsum(steps) - d) < 1e-9:
         return False, f"steps sum to {math.fsum(steps)!r}, expected {d!r}"
